@@ -254,6 +254,15 @@ type ABI struct {
 	InsertAssetsFn func(height uint32) []*blockchain.BlockAsset
 	// OnCall, if set, is invoked at the start of every ABI call with its name (fault injection / ordering probes).
 	OnCall func(name string)
+	// OnConsensus, if set, receives the consensus information the engine hands to the application with a block-execution call
+	// (a real application's state may depend on it: the generator and the validator of one block must pass the same values).
+	OnConsensus func(call string, c *labi.Consensus)
+}
+
+func (a *ABI) consensusSeen(call string, c *labi.Consensus) {
+	if a.OnConsensus != nil {
+		a.OnConsensus(call, c)
+	}
 }
 
 var _ labi.ABI = (*ABI)(nil)
@@ -315,6 +324,7 @@ func (a *ABI) VerifyAssets(req *labi.VerifyAssetsRequest) (*labi.VerifyAssetsRes
 
 func (a *ABI) BeforeTransactionsExecute(req *labi.BeforeTransactionsExecuteRequest) (*labi.BeforeTransactionsExecuteResponse, error) {
 	a.call("BeforeTransactionsExecute")
+	a.consensusSeen("before", req.Consensus)
 	a.mu.Lock()
 	defer a.mu.Unlock()
 	if a.ctx == nil {
@@ -348,6 +358,7 @@ func (a *ABI) VerifyTransaction(req *labi.VerifyTransactionRequest) (*labi.Verif
 
 func (a *ABI) ExecuteTransaction(req *labi.ExecuteTransactionRequest) (*labi.ExecuteTransactionResponse, error) {
 	a.call("ExecuteTransaction")
+	a.consensusSeen("tx", req.Consensus)
 	a.mu.Lock()
 	defer a.mu.Unlock()
 	o, _ := txOutcome(req.Transaction)
@@ -379,6 +390,7 @@ func (a *ABI) ExecuteTransaction(req *labi.ExecuteTransactionRequest) (*labi.Exe
 
 func (a *ABI) AfterTransactionsExecute(req *labi.AfterTransactionsExecuteRequest) (*labi.AfterTransactionsExecuteResponse, error) {
 	a.call("AfterTransactionsExecute")
+	a.consensusSeen("after", req.Consensus)
 	a.mu.Lock()
 	defer a.mu.Unlock()
 	if a.ctx == nil {
